@@ -428,7 +428,7 @@ func (w *walker) bindPlain(tok string) {
 	w.rest = true
 }
 
-var plainTokens = []string{"file", "x", "-", "a b", "é世", "0", "=", "k:v", "plain", "---x", "", "--- y"}
+var plainTokens = []string{"file", "x", "-", "a b", "é世", "0", "=", "k:v", "plain", "---x", "", "--- y", "--"}
 
 func (w *walker) plainToken() string {
 	r := w.r
